@@ -10,7 +10,7 @@ git -C /repo worktree add -q --detach "$WT/r" HEAD || exit 2
 trap 'git -C /repo worktree remove --force "$WT/r" >/dev/null 2>&1; rm -rf "$WT" "$EV"' EXIT
 cd /verif
 for d in seeded/*/; do
-  id=$(basename "$d"); prop=${id%%-*}
+  id=$(basename "$d"); prop=$(python3 -c "import json;m=json.load(open('/verif/$d/meta.json'));print(' '.join(m.get('properties') or [m['property']]))")
   (cd "$WT/r" && git checkout -q -f -- . && git apply "/verif/$d/patch.diff") || { echo "$id APPLY-FAILED"; continue; }
   props=$prop
   [ "$MODE" = all ] && props="C01 C02 C03 C04 C05 C06 C07 C08 C09 C10 C11 C12 C13 C14 C15 C16 C17 C18 C19 C20"
